@@ -105,6 +105,14 @@ pub(crate) fn sample_blocks(
     let delta = C_FRACTION.powf(k);
     let difficulty_range = last_difficulty - start_difficulty;
     let difficulty_boundary_added = multiply(&difficulty_range, 1.0 - delta);
+    // The samples are inside (start, boundary), and the boundary is not after the last.
+    let difficulty_boundary_added = if samples_count > 0 {
+        difficulty_boundary_added
+            .max(U256::from(2u32))
+            .min(difficulty_range.clone())
+    } else {
+        difficulty_boundary_added
+    };
     let difficulty_boundary = start_difficulty + &difficulty_boundary_added;
 
     trace!(
